@@ -81,8 +81,19 @@ func init() {
 		Run: func(c *rt.Ctx) {
 			c.Cov["rule"] = "E3 over Lightning answer scripts: from a state with two melt quotes, every sequence up to the depth bound of {melt with pay answer in {Succeeded, Pending, Failed, error} x first status answer in {NotFound, error, Failed, Pending, Succeeded}; then polls and proof-state checks each with status answer in {NotFound, error, Failed, Pending, Succeeded}; a second melt on the same quote; a melt of the same inputs on the other quote; a swap of the same inputs; restart}, one- and two-input melts, fee 0 and 100. Reference decision table: known in {none, success, failure} is updated only by answers the mint has seen; in every state the store's quote state / input states and an operational swap of the inputs are compared with it"
 			runSpecs(c, c05Specs(c.Quick()))
+			c.Cov["rule_schedules"] = "E1: the resolution of an in-flight melt (quote poll or proof-state check, backend outcome Succeeded or Failed) racing a swap of the same inputs / a melt of them on another quote / a second resolver: every interleaving at MintDB / Lightning call granularity with at most B preemptions (iterative bounding 0..B); oracle per execution: inputs of a paid melt accepted nowhere else, released inputs accepted at most once, quote and inputs follow the outcome after one more poll"
+			if c.Quick() {
+				runSched(c, "C05", []string{"L1-success-poll-vs-swap", "L2-success-check-vs-swap", "L3-success-poll-vs-melt", "L4-failure-poll-vs-swap-swap"}, 2)
+			} else {
+				runSched(c, "C05", []string{"L1-success-poll-vs-swap", "L2-success-check-vs-swap", "L3-success-poll-vs-melt", "L4-failure-poll-vs-swap-swap", "L5-success-poll-vs-check-vs-swap"}, 3)
+			}
 		},
-		Worker: bfs.Worker(c05All),
-		Replay: func(p string) int { return bfs.ReplayFile("C05", c05All, p) },
+		Worker: dispatchWorker(bfs.Worker(c05All)),
+		Replay: func(p string) int {
+			if code, ok := replaySched("C05", p); ok {
+				return code
+			}
+			return bfs.ReplayFile("C05", c05All, p)
+		},
 	})
 }
